@@ -809,6 +809,14 @@ fn op_arm_panic(ctx: Ctx, h: u8) {
     });
 }
 
+fn op_arm_stored(_ctx: Ctx, c: u8) {
+    let Some(cont) = get_cont(c) else { return };
+    let addr = peek_cont_ptr(&cont);
+    if addr != 0 && arena::arm_panic_at(addr) {
+        w(|w| w.armed += 1);
+    }
+}
+
 fn op_spawn(_ctx: Ctx, t: u8) {
     let ok = w(|w| (t as usize) < w.tids.len() && w.tids[t as usize].is_none() && !w.spawned[t as usize]);
     if !ok {
@@ -934,6 +942,7 @@ pub fn exec_op(ctx: Ctx, op: &Op) {
         Op::DropHandle { h } => op_drop_handle(ctx, *h),
         Op::CloneHandle { h, h2 } => op_clone_handle(ctx, *h, *h2),
         Op::ArmDropPanic { h } => op_arm_panic(ctx, *h),
+        Op::ArmStored { c } => op_arm_stored(ctx, *c),
         Op::Spawn { t } => op_spawn(ctx, *t),
         Op::Join { t } => op_join(ctx, *t),
         Op::TlsOp { ops } => op_tls(ctx, ops),
